@@ -37,9 +37,14 @@ def tokens(n):
     return out
 
 
+# software tokens / comments that themselves contain something shaped like an identification string (real: "Sun_SSH-1.5")
+EMBEDDED = ['Sun_SSH-1.5', 'x-SSH-1.0', 'a_SSH-9.9', 'SSH_2.0', 'xSSH-1.99-y']
+EMBEDDED_COMMENTS = ['SSH-1.5 compat', 'was SSH-1.0', 'c SSH-9.9-x']
+
+
 def grammar(tier):
     """yield banner lines (text, no line ending)"""
-    toks = tokens(2 if tier == 'quick' else 3)
+    toks = tokens(2 if tier == 'quick' else 3) + EMBEDDED
     for proto in PROTOS:
         for t in toks:
             for c in COMMENTS:
@@ -50,6 +55,8 @@ def grammar(tier):
                     for sep in (' ', '  ', '   '):
                         yield 'SSH-%s-%s%s%s' % (proto, t, sep, c)
                     yield 'SSH-%s-%s %s ' % (proto, t, c.replace(' ', '   '))
+            for c in EMBEDDED_COMMENTS:
+                yield 'SSH-%s-%s %s' % (proto, t, c)
 
 
 def check_direct(line, st, fam):
@@ -117,7 +124,7 @@ def check_templates(st):
 
 # ---- socket path: header lines, endings, segmentation at every offset
 PRELINES = [[], ['hello'], ['xSSH-2.0-a'], [' SSH-2.0-a'], ['SSH-'], ['Welcome to host', 'second line'], ['', 'after blank'], ['SSH-2', 'SSH-two.0-x']]
-SOCK_BANNERS = ['SSH-2.0-OpenSSH_9.6', 'SSH-2.0-a.1 c d', 'SSH-1.99-dropbear_2020.81', 'SSH-2.0-a\x80b', 'SSH-2.0-x  two  spaces ']
+SOCK_BANNERS = ['SSH-2.0-OpenSSH_9.6', 'SSH-2.0-a.1 c d', 'SSH-1.99-dropbear_2020.81', 'SSH-2.0-a\x80b', 'SSH-2.0-x  two  spaces ', 'SSH-2.0-Sun_SSH-1.5 was SSH-1.0']
 
 
 def sock_cases(tier):
